@@ -685,11 +685,18 @@ impl Open for VirtualSystem {
     }
 
     fn fdopendir(&self, fd: Fd) -> Result<impl Dir + use<>> {
-        self.with_open_file_description(fd, |ofd| {
+        let dir = self.with_open_file_description(fd, |ofd| {
             let inode = ofd.inode();
             let dir = VirtualDir::try_from(&inode.borrow().body)?;
             Ok(dir)
-        })
+        })?;
+
+        // The directory stream takes over the file descriptor and closes it
+        // when the stream is closed. `VirtualDir` has already read all the
+        // entries and does not keep the file descriptor, so we close it now
+        // lest it should stay open forever.
+        self.current_process_mut().close_fd(fd);
+        Ok(dir)
     }
 
     fn opendir(&self, path: &CStr) -> Result<impl Dir + use<>> {
